@@ -28,12 +28,30 @@
 #ifndef PRECOND
 #define PRECOND 0
 #endif
+#ifndef IDX
+#define IDX 0
+#endif
+#if SCALAR == 4
+#include <boost/multiprecision/cpp_bin_float.hpp>
+#include <boost/multiprecision/eigen.hpp>
+#endif
 #include "xrat.hpp"
 #if SCALAR == 0
 #include "exact_llt.hpp"
 typedef xr::xrat T;
-#else
+#elif SCALAR == 1
 typedef double T;
+#elif SCALAR == 2
+typedef float T;
+#elif SCALAR == 3
+typedef long double T;
+#else
+typedef boost::multiprecision::number<boost::multiprecision::cpp_bin_float<100>, boost::multiprecision::et_off> T;
+#endif
+#if IDX == 0
+typedef int IdxT;
+#else
+typedef long long IdxT;
 #endif
 
 #include "verif_hooks.hpp"
@@ -77,11 +95,11 @@ static const int kMode = KKTMode::KKT_INEQ_ELIMINATED;
 static const int kMode = KKTMode::KKT_ALL_ELIMINATED;
 #endif
 #if PRECOND == 0
-typedef SparseSolver<T, int, kMode, sparse::RuizEquilibration<T, int>> Solver;
+typedef SparseSolver<T, IdxT, kMode, sparse::RuizEquilibration<T, IdxT>> Solver;
 #else
-typedef SparseSolver<T, int, kMode, sparse::IdentityPreconditioner<T, int>> Solver;
+typedef SparseSolver<T, IdxT, kMode, sparse::IdentityPreconditioner<T, IdxT>> Solver;
 #endif
-typedef SparseMat<T, int> MatT;
+typedef SparseMat<T, IdxT> MatT;
 static const bool kSparse = true;
 #endif
 
@@ -91,10 +109,20 @@ static T parse_scalar(const std::string& s)
 #if SCALAR == 0
     return xr::xrat(s);
 #else
-    if (s == "inf" || s == "+inf") return HUGE_VAL;
-    if (s == "-inf") return -HUGE_VAL;
-    if (s == "nan") return std::nan("");
-    mpq_class q(s); q.canonicalize(); return q.get_d();
+    if (s == "inf" || s == "+inf") return std::numeric_limits<T>::infinity();
+    if (s == "-inf") return -std::numeric_limits<T>::infinity();
+    if (s == "nan") return std::numeric_limits<T>::quiet_NaN();
+    mpq_class q(s); q.canonicalize();
+#if SCALAR == 1 || SCALAR == 2
+    return (T) q.get_d();
+#else
+    // numerator / denominator in the target precision
+    T num = T(0), den = T(0);
+    { std::string a = q.get_num().get_str(), b = q.get_den().get_str();
+      bool neg = a[0] == '-'; for (char ch : a) if (ch != '-') num = num * T(10) + T(int(ch - '0')); if (neg) num = -num;
+      for (char ch : b) den = den * T(10) + T(int(ch - '0')); }
+    return num / den;
+#endif
 #endif
 }
 static std::string fmt(const T& x)
@@ -102,8 +130,18 @@ static std::string fmt(const T& x)
 #if SCALAR == 0
     if (x.taint) return "?";
     return x.str();
-#else
+#elif SCALAR == 1
     char buf[64]; snprintf(buf, sizeof buf, "%a", x); return buf;
+#elif SCALAR == 2
+    char buf[64]; snprintf(buf, sizeof buf, "%a", (double) x); return buf;
+#elif SCALAR == 3
+    if (std::isinf(x)) return x > 0 ? "inf" : "-inf";
+    if (std::isnan(x)) return "nan";
+    char buf[96]; snprintf(buf, sizeof buf, "%.24Le", x); return buf;
+#else
+    if (boost::math::isinf(x)) return x > 0 ? "inf" : "-inf";
+    if (boost::math::isnan(x)) return "nan";
+    std::ostringstream os; os.precision(60); os << std::scientific << x; return os.str();
 #endif
 }
 template<typename V> static std::string fmtv(const V& v, Eigen::Index k = -1)
@@ -153,7 +191,7 @@ static MatT build(const MatIn& m)
 {
     // entries are given column-major sorted; keep explicit zeros (pattern is part of the input)
     MatT M(m.rows, m.cols);
-    std::vector<int> cnt(m.cols, 0);
+    std::vector<IdxT> cnt(m.cols, 0);
     for (auto& t : m.e) cnt[t.c]++;
     M.reserve(cnt);
     for (auto& t : m.e) M.insert(t.r, t.c) = t.v;
@@ -213,7 +251,7 @@ template<typename M> static std::string fmt_dense(const M& A)
 template<typename SM> static std::string fmt_sparse(const SM& A)
 {
     std::ostringstream os; os << A.rows() << " " << A.cols() << " " << A.nonZeros();
-    for (int j = 0; j < A.outerSize(); j++)
+    for (Eigen::Index j = 0; j < A.outerSize(); j++)
         for (typename SM::InnerIterator it(A, j); it; ++it) os << " " << it.row() << " " << it.col() << " " << fmt(it.value());
     return os.str();
 }
@@ -332,7 +370,7 @@ int main(int argc, char** argv)
 #if BACKEND == 0
                 typedef CMatRef<T> MR;
 #else
-                typedef CSparseMatRef<T, int> MR;
+                typedef CSparseMatRef<T, IdxT> MR;
 #endif
                 typedef CVecRef<T> VR;
                 optional<MR> oP = mk_opt<MR>(B.P.present, P), oA = mk_opt<MR>(B.A.present, A), oG = mk_opt<MR>(B.G.present, G);
